@@ -4,8 +4,15 @@ are NOT decided (the sweep is deliberately asymmetric in x/y and up/down), excep
 translation clause: every event point is an input vertex, the clamped point returned by intersection() for a proper crossing,
 or the point of an existing event (G-sources) - in particular the end points of a collinear overlap are the existing vertices
 and never re-computed in floating point (a re-computed a1 + s*(a2-a1) is not exact even on integer inputs and its rounding
-depends on the absolute position)."""
-from rules import degreerules, fillrules, pirules
+depends on the absolute position).
+For the mirror / transposition / quarter-turn clause one structural necessary condition is decided: a transposition turns a
+non-vertical edge into a vertical one, so the same configuration runs once through the ordinary rows and once through the
+vertical-predecessor rows of compute_fields.  The rows for a vertical predecessor (in/out compensation in the same-operand and
+the other-operand branch, T-prop; a vertical predecessor is never chosen as prev_in_result, T-prev) must classify as the
+geometry dictates, like the ordinary rows, and is_vertical must be the exact test x0 == x1 the tables are read against (T-atoms).
+Seeds s83 and s88 (written against this clause) break exactly these rows.  That the two poses then give the *same region* is a
+statement about all inputs and is not decided."""
+from rules import booltables as bt, degreerules, fillrules, pirules
 
 LEVEL = 'proof'
 EXPLANATION = __doc__
@@ -14,7 +21,7 @@ TRUSTED = ['rustc nightly type checker / MIR construction / callee resolution', 
            'degree-1 points to degree 2 and its adaptive error bounds are eps-constant x |degree-2 sums|, so they scale with the data',
            'IEEE-754: multiplication by 2^k is exact and commutes with + - * / comparisons absent overflow/underflow/subnormals']
 ASSUMPTIONS = ['no overflow, underflow or subnormal intermediate (the property excludes them)',
-               'the scaling clause of C08 is decided; of the translation clause only the provenance of event points (G-sources) is checked; mirror / transpose / rotation are not decided']
+               'the scaling clause of C08 is decided; of the translation clause only the provenance of event points (G-sources) is checked; of mirror / transpose / rotation only the vertical-predecessor rows of the classification tables (T-prop, T-prev, T-atoms) are checked']
 
 
 def run(ctx, rep):
@@ -23,3 +30,7 @@ def run(ctx, rep):
     fillrules.check_process_polygon(ctx, rep, rules=('G-sources', None, None, None, None))
     fillrules.check_divide(ctx, rep, rules=('G-sources', None))
     pirules.check_code(ctx, rep, rule='G-sources')
+    # mirror / transpose clause, structural part: the pose-dependent (vertical predecessor) rows of the classification
+    bt.check_prop(ctx, rep)
+    bt.check_prev(ctx, rep)
+    bt.check_atom_models(ctx, rep)
